@@ -56,59 +56,73 @@ def unused_params(ctx, rep: Report, rule: str, module_prefixes, floor: int = 5):
 
 
 # ---- own-namespace (non-inheriting) lookups on classes -------------------------------------------
+# (function suffix, what is looked up) -> why "defined by this very class" is what is meant there
 OWN_NS_ALLOWED = {
-    ("Attr.lookup_default_value", "self.name in cls.__dict__"): "MRO walk: each class is asked for its own override",
-    ("spec_class.__call__.<locals>.bootstrapper", "spec_cls.__dict__.get('__spec_class__')"): "re-check of this class's own placeholder",
-    ("spec_class.__call__", "'__new__' in spec_cls.__dict__"): "only a __new__ defined by the class itself is restored",
-    ("spec_class.bootstrap", "vars(spec_cls)"): "annotation namespace of the class body",
-    ("spec_class.bootstrap", "attr in spec_cls.__dict__"): "the subclass body re-defines the attribute",
-    ("spec_class.register_method", "name in spec_cls.__dict__"): "never replace what the class body defines (C16.REG)",
-    ("SpecClassMetadata.for_class", "klass.__dict__.get('__spec_class__', MISSING)"): "nearest ancestor carrying its own metadata",
-    ("SpecClassMetadata.invalidation_map", "klass.__dict__.items()"): "members declared by each class of the MRO",
+    ("Attr.lookup_default_value", "self.name"): "MRO walk: each class is asked for its own override",
+    ("spec_class.__call__.<locals>.bootstrapper", "'__spec_class__'"): "re-check of this class's own placeholder",
+    ("spec_class.__call__", "'__new__'"): "only a __new__ defined by the class itself is restored",
+    ("spec_class.bootstrap", "*"): "annotation namespace of the class body",
+    ("spec_class.bootstrap", "attr"): "the subclass body re-defines the attribute",
+    ("spec_class.register_method", "name"): "never replace what the class body defines (C16.REG)",
+    ("SpecClassMetadata.for_class", "'__spec_class__'"): "nearest ancestor carrying its own metadata",
+    ("SpecClassMetadata.invalidation_map", "*"): "members declared by each class of the MRO",
+    ("InitMethod.init", "'__init__'"): "a class that only inherits its constructor has nothing of its own to run",
 }
 
 
 def own_namespace_lookups(ctx, rep: Report, rule: str):
     """`X.__dict__` / `vars(X)` on a *class* does not see inherited members.  Class-level protocol lookups
-    (spec-class recognition, preparers, hooks) must inherit; own-namespace access is confined to the enumerated
-    sites, each of which means 'defined by this very class'."""
+    (spec-class recognition, preparers, hooks) must inherit; own-namespace access on a class-valued expression is
+    confined to the enumerated (function, looked-up key) pairs, each of which means 'defined by this very class'."""
+    from .base import class_valued
     rep.rules[rule] = "own-namespace (non-inheriting) class lookups only at enumerated sites"
     n = 0
     for fi in ctx.p.iter_functions():
         if fi.is_lambda or not fi.module.name.startswith(ctx.p.package):
             continue
         short = fi.qualname.split(":")[-1].split("#")[0]
+        owner_fi = fi
+        cls_names = set(class_valued(fi))
+        while owner_fi.parent is not None:          # closures see the class-valued names of their enclosing functions
+            owner_fi = owner_fi.parent
+            cls_names |= class_valued(owner_fi)
+        parents = {}
+        for p_ in ast.walk(fi.node):
+            for ch in ast.iter_child_nodes(p_):
+                parents[id(ch)] = p_
         for node in walk_own(fi.node):
             base = None
             if isinstance(node, ast.Attribute) and node.attr == "__dict__":
-                base = ast.unparse(node.value)
+                base = node.value
             elif isinstance(node, ast.Call) and isinstance(node.func, ast.Name) and node.func.id == "vars" and node.args:
-                base = ast.unparse(node.args[0])
+                base = node.args[0]
             elif isinstance(node, ast.Call) and isinstance(node.func, ast.Name) and node.func.id == "getattr" and len(node.args) >= 2 \
                     and isinstance(node.args[1], ast.Constant) and node.args[1].value == "__dict__":
-                base = ast.unparse(node.args[0])
-            if base is None or base in ("self", "instance", "new", "obj") or base.startswith("self."):
+                base = node.args[0]
+            if base is None:
+                continue
+            bsrc = ast.unparse(base)
+            is_cls = (isinstance(base, ast.Name) and base.id in cls_names) or bsrc.endswith(".__class__") or bsrc.startswith("type(") \
+                or bsrc in ("self.spec_cls", "self.owner")
+            if not is_cls:
                 continue     # instance dictionaries
             n += 1
-            # the smallest enclosing expression statement fragment that mentions the lookup
-            frag = _enclosing_fragment(fi.node, node)
-            ok = any((short == k[0] or short.endswith("." + k[0])) and k[1] in frag for k in OWN_NS_ALLOWED)
+            par = parents.get(id(node))
+            key = "*"
+            if isinstance(par, ast.Compare) and isinstance(par.ops[0], (ast.In, ast.NotIn)) and par.comparators[0] is node:
+                key = ast.unparse(par.left)
+            elif isinstance(par, ast.Attribute) and par.attr in ("get", "pop", "__getitem__", "__contains__"):
+                call = parents.get(id(par))
+                if isinstance(call, ast.Call) and call.args:
+                    key = ast.unparse(call.args[0])
+            elif isinstance(par, ast.Subscript) and par.value is node:
+                key = ast.unparse(par.slice)
+            ok = any((short == k[0] or short.endswith("." + k[0])) and k[1] == key for k in OWN_NS_ALLOWED)
+            frag = f"{key} in own namespace of {bsrc}" if key != "*" else f"own namespace of {bsrc}"
             rep.oblige(rule, f"{short}:{frag[:50]}", ok)
             if not ok:
-                rep.violate(Violation(rule, f"{rule}|{short}|{frag[:70]}",
-                                      f"{short} looks `{frag[:90]}` up in the class's own namespace: members inherited from a parent / mixin (or a class that only inherits its spec-class metadata) are not seen",
+                rep.violate(Violation(rule, f"{rule}|{short}|{key}",
+                                      f"{short} looks `{key}` up in the own namespace of the class `{bsrc}` (__dict__ / vars): members inherited from a parent / mixin (or a class that only inherits its spec-class metadata) are not seen",
                                       f"{fi.module.relpath}:{node.lineno}", short))
     if n < 6:
-        raise AnalysisError(f"{rule}: only {n} own-namespace lookups found (floor 6)")
-
-
-def _enclosing_fragment(fnode, target):
-    """Source of the innermost Compare / Call / Subscript / Attribute chain enclosing `target`."""
-    best = ast.unparse(target)
-    for n in ast.walk(fnode):
-        if isinstance(n, (ast.Compare, ast.Call)) and any(x is target for x in ast.walk(n)):
-            s = ast.unparse(n)
-            if len(s) < 120 and (len(best) < len(s)) and (isinstance(n, ast.Compare) or (isinstance(n.func, ast.Attribute) and any(x is target for x in ast.walk(n.func)))
-                                                           or (isinstance(n.func, ast.Name) and n.func.id == "vars" and n is target)):
-                best = s
-    return best
+        raise AnalysisError(f"{rule}: only {n} own-namespace lookups on classes found (floor 6)")
